@@ -18,9 +18,12 @@ THEOREMS = ["RootSim.C20.roundtrip", "RootSim.C20.roundtrip_option", "RootSim.C2
             "RootSim.C20.same_record_count_counterexample_vote", "RootSim.C20.not_same_record_count"]
 
 
+DRIVER_BIN = [vlib.DRIVER]
+
+
 def driver_lines(lines):
     """run a few protocol lines through `driver stats`"""
-    p = subprocess.run([vlib.DRIVER, "stats"], input=("\n".join(lines) + "\n").encode(), stdout=subprocess.PIPE,
+    p = subprocess.run([DRIVER_BIN[0], "stats"], input=("\n".join(lines) + "\n").encode(), stdout=subprocess.PIPE,
                        timeout=600)
     return p.stdout.decode().splitlines()
 
@@ -84,6 +87,7 @@ def run(ctx):
                         "GVT values handed to stats_on_gvt are non-decreasing (C04) and non-negative finite doubles",
                         "same_record_count: refuted, not assumed (finding F6)"]
     ok, _ = ctx.lean_build(["RootSim.Props.C20"])
+    DRIVER_BIN[0] = getattr(ctx, "driver_bin", vlib.DRIVER)
     ctx.token_audit()
     if ok:
         ctx.axiom_audit("RootSim.Props.C20", THEOREMS)
